@@ -102,7 +102,7 @@ def _frac(v):
 def relations(out, m, A, B, Cu, mag, k, where, strict, tol_rt, tol_route, prop="C05"):
     """where: bucket suffix (shape class); strict: round-trip/route clauses enforced as plain
     buckets (inside D_ok / syn / pinned) -- outside, they are filed under the shape class."""
-    q = mag * A
+    q = convgen.quantity(mag, A, B, classes=out.classes)
     ab, e1 = _conv(q, B)
     if ab is None:
         out.classes.append(f"A->B raised:{type(e1).__name__}")
